@@ -24,14 +24,17 @@ def _pro(it, p, b):
         it.fail(b)
     elif p == 3:
         it.stop(b)
+    elif p == 5:
+        it.flush(True)
 
 
-AGE = 8
+AGE = 6
 
 
 def tpl_stopaged(size, m1, p1, b1, p2, b2, m2, sa, n, _twin=False):
-    """The same scenario in a pool that has already run (and flushed) AGE tasks: the ids at stake are 8, 9, 10, 11, 12 -
-    'newest first' must be numeric, also across a change in the number of digits."""
+    """The same scenario in a pool that has already run (and flushed) AGE tasks: the ids at stake are 6 .. 10 -
+    'newest first' must be numeric, also across a change in the number of digits, and must survive a flush() that
+    happens while the running ids have gaps (prologue step 5)."""
     return tpl_stop(size, m1, p1, b1, p2, b2, m2, sa, n, 0, _twin, AGE)
 
 
@@ -100,7 +103,7 @@ def families(tier):
     thorough = tier == "thorough"
     mm = 4 if thorough else 3
     P = ["size", "m1", "p1", "b1", "p2", "b2", "m2", "sa", "n", "sw"]
-    pre = ["size >= 0", "0 <= m1 <= %d" % mm, "0 <= p1 <= 4", "b1 >= -1", "0 <= p2 <= 4", "b2 >= -1", "0 <= m2 <= 2", "0 <= sa <= 1", "0 <= sw <= 1"]
+    pre = ["size >= 0", "0 <= m1 <= %d" % mm, "0 <= p1 <= 5", "b1 >= -1", "0 <= p2 <= 5", "b2 >= -1", "0 <= m2 <= 2", "0 <= sa <= 1", "0 <= sw <= 1"]
     if not thorough:
         pre += ["size >= 6", "m1 == 3", "sa == 0 or n == 0", "b1 <= 2", "b2 <= 2", "sw == 0 or (p1 == 3 and p2 == 4)"]
         parts = parts_product(p1=range(5), p2=(0, 1, 4), m2=(0, 2))
@@ -109,7 +112,7 @@ def families(tier):
         parts = parts_product(m1=(3, 4), p1=range(5), p2=range(5), m2=range(3))
     PA = P[:-1]
     prea = [q for q in pre if "sw" not in q] + ["size >= %d" % AGE]
-    partsa = parts_product(p1=(0, 1, 3, 4), p2=(0, 4), m2=(0, 2)) if not thorough else parts_product(m1=(3, 4), p1=range(5), p2=(0, 1, 4), m2=range(3))
+    partsa = parts_product(p1=(0, 1, 3, 4), p2=(0, 4, 5), m2=(0, 2)) if not thorough else parts_product(m1=(3, 4), p1=range(6), p2=(0, 1, 4, 5), m2=range(3))
     return [Family(name="stop", fn="tpl_stop", params=P, pre=pre, parts=parts,
                    twin_pre=["m1 == 3", "p1 == 0", "p2 == 4", "m2 == 2", "sa == 0"], twin_args=[9, 3, 0, 1, 4, 0, 2, 0, 2, 0]),
             Family(name="stopaged", fn="tpl_stopaged", params=PA, pre=prea, parts=partsa,
